@@ -1,0 +1,30 @@
+//go:build verif
+
+// Contracts for govc (contract-based deductive verification, /verif). Comment-only file:
+// it is compiled only under the build tag "verif" and contains no code.
+
+package ipdict
+
+// A sorted, merged table: every bound is a 16-byte address, each range is non-empty, ranges are ordered by
+// descending start and a later range ends strictly below the start of every earlier one.
+//@ spec wfPairs(items ipPairs) bool := (forall k int :: 0 <= k && k < len(items) ==> len(items[k].startIP) == 16 && len(items[k].endIP) == 16 && be128(items[k].startIP) <= be128(items[k].endIP)) && (forall i int :: forall j int :: 0 <= i && i < j && j < len(items) ==> be128(items[j].startIP) < be128(items[i].startIP)) && (forall i int :: forall j int :: 0 <= i && i < j && j < len(items) ==> be128(items[j].endIP) < be128(items[i].startIP))
+//@ spec inSomeRange(items ipPairs, v int) bool := exists k int :: 0 <= k && k < len(items) && be128(items[k].startIP) <= v && v <= be128(items[k].endIP)
+
+//@ func (*IPTable).Search$1
+//@   props C19
+//@   nopanic
+//@   requires 0 <= i && i < len(items) && len(items[i].startIP) == 16 && len(ip16) == 16
+//@   modifies nothing
+//@   ensures[predicate_is_start_at_or_below_the_address] result0 <==> be128(items[i].startIP) <= be128(ip16)
+
+//@ func (*IPTable).Search
+//@   props C19
+//@   nopanic
+//@   requires t != nil
+//@   requires t.ipItems != nil ==> wfHS(t.ipItems.ipSet) && wfPairs(t.ipItems.items)
+//@   modifies nothing
+//@   ensures[no_table_contains_nothing] t.ipItems == nil ==> !result0
+//@   ensures[not_an_address_is_not_contained] len(srcIP) != 4 && len(srcIP) != 16 ==> !result0
+//@   ensures[a_hit_is_a_single_address_or_inside_a_range] t.ipItems != nil && result0 ==> hsHas16(t.ipItems.ipSet, ipVal(srcIP)) || inSomeRange(t.ipItems.items, ipVal(srcIP))
+//@   ensures[a_loaded_single_address_is_contained] t.ipItems != nil && (len(srcIP) == 4 || len(srcIP) == 16) && hsHas16(t.ipItems.ipSet, ipVal(srcIP)) ==> result0
+//@   ensures[an_address_inside_a_range_is_contained] t.ipItems != nil && (len(srcIP) == 4 || len(srcIP) == 16) && inSomeRange(t.ipItems.items, ipVal(srcIP)) ==> result0
